@@ -33,6 +33,38 @@ theorem decodeTbsCrl_revoked (raw : Bytes) (p : Bool) (d : CrlD) (h : decodeTbsC
   apply takeRevoked_capture
   assumption
 
+theorem crlInner_revoked (c : Bytes) (d : CrlD) (h : crlInner c = some d) :
+    ∃ n, Crl.capture d.revoked = some n := by
+  unfold crlInner at h
+  split at h
+  · cases h
+  · cases h1 : skipOne c with
+    | none => simp [h1] at h
+    | some r1 =>
+      simp only [h1] at h
+      cases h2 : takeSigAlg r1 with
+      | none => simp [h2] at h
+      | some q2 =>
+        obtain ⟨op, r2⟩ := q2
+        simp only [h2] at h
+        cases h3 : takeBitString r2 with
+        | none => simp [h3] at h
+        | some q3 =>
+          obtain ⟨u, sig, r3⟩ := q3
+          simp only [h3] at h
+          split at h
+          · cases h
+          · cases h4 : decodeTbsCrl (List.take (c.length - r1.length) c) with
+            | none => simp [h4] at h
+            | some q4 =>
+              obtain ⟨ip, d'⟩ := q4
+              simp only [h4] at h
+              split at h
+              · cases h
+              · simp only [Option.some.injEq] at h
+                subst h
+                exact decodeTbsCrl_revoked _ ip d' h4
+
 theorem takeCrl_revoked (b : Bytes) (d : CrlD) (rest : Bytes) (h : takeCrl b = some (d, rest)) :
     ∃ n, Crl.capture d.revoked = some n := by
   unfold takeCrl at h
@@ -41,35 +73,13 @@ theorem takeCrl_revoked (b : Bytes) (d : CrlD) (rest : Bytes) (h : takeCrl b = s
   | some q =>
     obtain ⟨c, rest0⟩ := q
     simp only [h0] at h
-    split at h
-    · cases h
-    · cases h1 : skipOne c with
-      | none => simp [h1] at h
-      | some r1 =>
-        simp only [h1] at h
-        cases h2 : takeSigAlg r1 with
-        | none => simp [h2] at h
-        | some q2 =>
-          obtain ⟨op, r2⟩ := q2
-          simp only [h2] at h
-          cases h3 : takeBitString r2 with
-          | none => simp [h3] at h
-          | some q3 =>
-            obtain ⟨u, sig, r3⟩ := q3
-            simp only [h3] at h
-            split at h
-            · cases h
-            · cases h4 : decodeTbsCrl (List.take (c.length - r1.length) c) with
-              | none => simp [h4] at h
-              | some q4 =>
-                obtain ⟨ip, d'⟩ := q4
-                simp only [h4] at h
-                split at h
-                · cases h
-                · simp only [Option.some.injEq, Prod.mk.injEq] at h
-                  obtain ⟨e, _⟩ := h
-                  subst e
-                  exact decodeTbsCrl_revoked _ ip d' h4
+    cases h1 : crlInner c with
+    | none => simp [h1] at h
+    | some d' =>
+      simp only [h1, Option.map_some, Option.some.injEq, Prod.mk.injEq] at h
+      obtain ⟨e, _⟩ := h
+      subst e
+      exact crlInner_revoked c d' h1
 
 /-- **every decoded CRL**: the captured list passed the counting pass -/
 theorem decodeCrl_revoked (b : Bytes) (d : CrlD) (h : decodeCrl b = some d) :
